@@ -6,7 +6,8 @@ from .cctypes import T
 from .prog import CB, single_graph
 
 MODES = ["simple", "depth_default", "depth_extreme"]
-OUTSIDE = ["wide-type instances on which the solver gives no answer within the cap while the 8-bit instances of the same template are unsat are printed as NOT-DECIDED, counted under not_decided_wide_instances and are not part of the claim",
+OUTSIDE = ["bit-level protocols in the thorough tier also at 16 bits (probed: A2B 88 s, B2A 25 s); private x private MixedMultiply is decided only by cvc5 after ~15 min and is left to C04/C05-style structural checks",
+           "wide-type instances on which the solver gives no answer within the cap while the 8-bit instances of the same template are unsat are printed as NOT-DECIDED, counted under not_decided_wide_instances and are not part of the claim",
            "bit-level protocols (A2B/B2A/private MixedMultiply/compiled Sort) at scalar widths above 8 bits (16 thorough)",
            "array shapes above 8 elements, rank above 3, composition depth above 6",
            "Truncate (C05), Join (not applicable, see DESIGN §6), custom ops with approximate semantics (C20)"]
@@ -217,7 +218,7 @@ def gen_cases(tier, seed, purpose="c01"):
     elif purpose == "c02":
         # three-view on the bit-level protocols (B2A's extra key exchange, A2B's resharing); thorough configurations
         # are cheap here (1-10 s each); the known-finding configuration is C01's
-        cases += [c for c in bits8_cases("thorough", seed, k) if "key" not in c]
+        cases += [c for c in bits8_cases("thorough", seed, k) if "key" not in c and (tier == "thorough" or c.get("real_st", "u8") == "u8")]
     return cases
 
 
@@ -230,13 +231,16 @@ def bits8_cases(tier, seed, k0):
     plan = [("a2b_b2a_sum", [[0, 1], ["shared", "shared"], [2, "public"]]), ("bit_and_xor", [[0, 1, 2], ["shared", 1, "public"]]),
             ("apply_perm", [[0, "public"], ["shared", "public"]]), ("b2a", [[1], ["shared"]]), ("a2b", [["shared"]])]
     k = k0
-    for name, ovs in plan:
-        prog, in_types = instantiate_bool(name, bt[name], "u8")
-        for owners in (ovs if tier == "thorough" else ovs[:2]):
-            k += 1
-            outs = gen.output_sets()[(k + seed) % 8]
-            cases.append(dict(id="B:%s:u8:%s:%s:simple" % (name, "".join(str(o)[0] for o in owners), "".join(map(str, outs)) or "-"), template="B:" + name, st="u8", prog=prog,
-                              in_types=[t.to_json() for t in in_types], owners=owners, outs=outs, mode=["simple", "depth_default"][k % 2], kind="bits", vseed=seed * 1000 + k, ref="S", timeout=400))
+    for st in (["u8"] if tier == "quick" else ["u8", "i16"]):
+        for name, ovs in plan:
+            prog, in_types = instantiate_bool(name, bt[name], st)
+            for owners in (ovs if tier == "thorough" else ovs[:2]):
+                k += 1
+                outs = gen.output_sets()[(k + seed) % 8]
+                # st stays "u8"-like for the phase logic: these are decided monolithically, never skipped
+                cases.append(dict(id="B:%s:%s:%s:%s:simple" % (name, st, "".join(str(o)[0] for o in owners), "".join(map(str, outs)) or "-"), template="B:%s:%s" % (name, st), st="u8" if st == "u8" else "bit",
+                                  real_st=st, prog=prog, in_types=[t.to_json() for t in in_types], owners=owners, outs=outs, mode=["simple", "depth_default"][k % 2], kind="bits",
+                                  vseed=seed * 1000 + k, ref="S", timeout=400 if st == "u8" else 1200))
     prog, in_types = instantiate_bool("apply_perm", bt["apply_perm"], "u8")
     cases.append(dict(id="B:apply_perm:u8:01:2:simple", template="B:apply_perm_private", st="u8", prog=prog, in_types=[t.to_json() for t in in_types], owners=[0, 1], outs=[2], mode="simple",
                       kind="bits", vseed=seed, ref="S", timeout=200, key="apply_perm|private-permutation-operand"))
